@@ -570,7 +570,7 @@ func (h *HoldSvc) Hold(ctx context.Context, token string) (string, error) {
 func TestC14ManyOutstanding(t *testing.T) {
 	defer vt.Watch("TestC14ManyOutstanding", 120*time.Second)()
 	rec := vt.For("C14")
-	rec.Rule("many outstanding calls: 20-120 callers on one end of a default connection (jsonrpc2.ServePipe: no pending limit) send before any reply exists (the handler holds every request until all have arrived), some are cancelled meanwhile, then the replies come back in generated order; oracle: every call that was not cancelled returns its own token, cancelled ones return their context's error; distinct by (callers, cancelled, order)")
+	rec.Rule("many outstanding calls: 20-120 callers on one end of a default connection (jsonrpc2.ServePipe: no pending limit), or 2-49 callers on a connection configured like the pool server's (50 reply slots, drop 10 when full), send before any reply exists (the handler holds every request until all have arrived), some are cancelled meanwhile, then the replies come back in generated order; oracle: every call that was not cancelled returns its own token, cancelled ones return their context's error; distinct by (callers, cancelled, order)")
 	rapid.Check(t, func(rt *rapid.T) {
 		rapid.SyncTest(rt, func(rt *rapid.T) {
 			rb, ra := jsonrpc2.ServePipe()
@@ -581,6 +581,13 @@ func TestC14ManyOutstanding(t *testing.T) {
 				rt.Fatal(err)
 			}
 			n := rapid.IntRange(20, 120).Draw(rt, "callers")
+			// the pool server's configuration of its connections: at most 50 reply slots, the 10 oldest are dropped
+			// when the table is full. Below that bound nothing may be dropped.
+			production := rapid.Bool().Draw(rt, "poolServerLimits")
+			if production {
+				ra.PendingLimit, ra.PendingDiscard = 50, 10
+				n = rapid.IntRange(2, 49).Draw(rt, "callersBelowLimit")
+			}
 			nCancel := rapid.IntRange(0, n/3).Draw(rt, "cancelled")
 			type res struct {
 				out string
@@ -625,12 +632,12 @@ func TestC14ManyOutstanding(t *testing.T) {
 						rt.Fatalf("cancelled call %d returned %q", i, r.out)
 					}
 				case r.err != nil:
-					rt.Fatalf("call %d of %d outstanding calls never got its reply: %v (a connection without a pending limit must keep every outstanding call's reply slot)", i, n, r.err)
+					rt.Fatalf("call %d of %d outstanding calls never got its reply: %v (pool server limits 50/10 configured: %v; below the limit, and without one, every outstanding call keeps its reply slot)", i, n, r.err, production)
 				case r.out != fmt.Sprintf("tok%d", i):
 					rt.Fatalf("call %d returned %q, its own reply is %q", i, r.out, fmt.Sprintf("tok%d", i))
 				}
 			}
-			rec.Case(fmt.Sprintf("many|%d|%d", n, len(cancelled)), n > 50, []string{"many-outstanding", fmt.Sprintf("many-outstanding:>50:%v", n > 50)}, func() interface{} {
+			rec.Case(fmt.Sprintf("many|%d|%d|%v", n, len(cancelled), production), n > 50 || (production && n >= 10), []string{"many-outstanding", fmt.Sprintf("many-outstanding:>50:%v", n > 50), fmt.Sprintf("many-outstanding:pool-server-limits:%v", production)}, func() interface{} {
 				return map[string]interface{}{"kind": "many outstanding calls", "callers": n, "cancelled": len(cancelled)}
 			})
 		})
